@@ -37,6 +37,7 @@ FLOORS = {'round_trips': 150, 'point_uncompiled': 10, 'point_compiled': 10,
           'names_compared_after_evaluation': 50,
           'fresh_process_loads': 8,
           'evaluators_attached_before_loading': 15,
+          'constructed_without_build_code': 20,
           'emptied_inputs_persisted': 5}
 ANCHOR_FUNCS = {'xlcalculator/model.py': ['Model.persist_to_json_file',
                                           'Model.construct_from_json_file',
@@ -287,6 +288,21 @@ def run(ctx):
                              monitor='construction', group='build_code')
                     continue
             ev_o, ev_r = Evaluator(model), Evaluator(restored)
+            # the file constructed WITHOUT asking for build_code: a model that
+            # was compiled when it was persisted comes back ready to evaluate
+            ev_lazy = None
+            if point != 'uncompiled' and rng.random() < 0.5:
+                try:
+                    lazy = Model()
+                    lazy.construct_from_json_file(fname)
+                    ev_lazy = Evaluator(lazy)
+                    ctx.event('constructed_without_build_code')
+                except Exception as e:  # noqa
+                    ctx.fail(f'construct_from_json_file(file) without '
+                             f'build_code raised {e!r} (point {point!r})',
+                             {'cells': build.dict_of(wb), 'point': point},
+                             monitor='round-trip-raises',
+                             group='raises:lazy-construct')
             # an Evaluator that was attached to its (still empty, or
             # otherwise filled) Model BEFORE the file was constructed into it
             ev_early = None
@@ -318,6 +334,13 @@ def run(ctx):
                         ('value', nan_safe(gr[1]))
                 if go != gr:
                     bad.append((a, go, gr))
+                if ev_lazy is not None:
+                    gz = subject.outcome_of(lambda: ev_lazy.evaluate(a))
+                    if gz[0] == 'value':
+                        gz = ('value', nan_safe(gz[1]))
+                    if gz != go:
+                        bad.append((a, go, ('constructed without build_code',
+                                            gz)))
                 if ev_early is not None:
                     ge = subject.outcome_of(lambda: ev_early.evaluate(a))
                     if ge[0] == 'value':
@@ -452,8 +475,22 @@ def run(ctx):
                 restored.construct_from_json_file(fname, build_code=True)
                 lazy = Model()
                 lazy.construct_from_json_file(fname)
+                # ... and the same for a sub-model extracted from it
+                from xlcalculator import ModelCompiler as _MC
+                sub = _MC.extract(model, ['Sheet1!B2'])
+                sub.persist_to_json_file(fname)
+                sub_r = Model()
+                sub_r.construct_from_json_file(fname, build_code=True)
+                gs = subject.outcome_of(
+                    lambda: Evaluator(sub_r).evaluate('Sheet1!B2'))
                 go = subject.outcome_of(
                     lambda: Evaluator(model).evaluate('Sheet1!B2'))
+                if gs != go:
+                    ctx.fail(f'sub-model extracted from a model with a formula '
+                             f'of {n_terms} operands, persisted and restored: '
+                             f'-> {str(gs)[:120]}, original -> {str(go)[:120]}',
+                             {'operands': n_terms}, monitor='same-evaluation',
+                             group='long-formula-extract')
                 gr = subject.outcome_of(
                     lambda: Evaluator(restored).evaluate('Sheet1!B2'))
                 gl = subject.outcome_of(
